@@ -22,6 +22,7 @@ CONSTANTS
   MaxHavoc = 0
   KeepRec = FALSE
   NestedTrigs = {}
+  NestedHx = {}
   EvMayHold = FALSE
 INVARIANT NoBad
 INVARIANT Structural
